@@ -350,6 +350,11 @@ def reshape(tens, shape, eps=1e-16, rmax=sys.maxsize):
 
     dfin = len(shape)
     cores, R = rl_orthogonal(tens.cores, tens.R, tens.is_ttm)
+    # trailing modes of size 1 only carry a (rank x 1) factor: absorb them into the core before them,
+    # otherwise the loops below stop before these cores are consumed and the factor is lost.
+    while len(cores) > 1 and all(n == 1 for n in cores[-1].shape[1:-1]):
+        last = cores.pop()
+        cores[-1] = tn.tensordot(cores[-1], tn.reshape(last, [last.shape[0], 1]), 1)
     if tens.is_ttm:
         M = []
         N = []
